@@ -242,6 +242,8 @@ pub fn cast_universe(quick: bool) -> Vec<Ty> {
         Ty::arr(u(1), 5), Ty::tup(vec![u(1), u(4)]), Ty::tup(vec![u(1), u(1), u(1), u(1), u(1)]), Ty::arr(u(1), 8), Ty::arr(u(2), 4), Ty::arr(u(4), 2),
         Ty::either(u(8), u(8)), Ty::either(u(8), Ty::tup(vec![u(4), u(4)])), Ty::tup(vec![Ty::Bool, u(8)]), Ty::tup(vec![u(1), u(8)]), Ty::opt(Ty::Bool), Ty::opt(u(1)), Ty::list(Ty::Bool, 2),
         Ty::tup(vec![Ty::unit(), u(8)]), Ty::tup(vec![u(8), Ty::unit()]), Ty::arr(Ty::unit(), 3),
+        // degenerate sizes: every zero-length array has the layout of (), whatever its element type
+        Ty::arr(u(16), 0), Ty::arr(Ty::Bool, 0), Ty::arr(Ty::arr(u(32), 0), 3), Ty::arr(Ty::arr(Ty::Bool, 0), 3), Ty::list(Ty::arr(u(64), 0), 4), Ty::list(Ty::arr(u(8), 0), 4), Ty::tup(vec![u(8), Ty::arr(u(16), 0)]), Ty::arr(Ty::unit(), 0), Ty::tup(vec![Ty::unit(), Ty::unit()]),
     ];
     if !quick {
         for n in [5usize, 6, 7, 9] {
